@@ -56,7 +56,8 @@ class Run:
         holds (the other rules keep their verdicts)."""
         if not hasattr(self, "conditions"):
             self.conditions = {}
-        self.conditions[name] = (reason, tuple(rules))
+        old = self.conditions.get(name)
+        self.conditions[name] = (reason, tuple(rules) + (old[1] if old else ()))
 
     def check(self, rule, key, ok, detail_ok="", detail_bad="", witness=None):
         if ok:
